@@ -250,6 +250,8 @@ def run(ctx):
     d6_protected_sets(ctx)
     from ._shared import encoding_agreement
     ctx.floor('C20 text/json readers checked for encoding agreement', encoding_agreement(ctx, 'D7'), 3)
+    from ._shared import inplace_rewrites_truncate
+    inplace_rewrites_truncate(ctx, 'D7')
 
 
 # --------------------------------------------------------------------------
